@@ -12,8 +12,15 @@ func deleteChildOperator(d *dataTreeNavigator, context Context, expressionNode *
 		return Context{}, err
 	}
 	//need to iterate backwards to ensure correct indices when deleting multiple
+	alreadyDeleted := make(map[*CandidateNode]bool)
 	for el := nodesToDelete.MatchingNodes.Back(); el != nil; el = el.Prev() {
 		candidate := el.Value.(*CandidateNode)
+
+		// the same node can be selected more than once, e.g. del(.[0], .[0])
+		if alreadyDeleted[candidate] {
+			continue
+		}
+		alreadyDeleted[candidate] = true
 
 		if candidate.Parent == nil {
 			// must be a top level thing, delete it
@@ -29,7 +36,7 @@ func deleteChildOperator(d *dataTreeNavigator, context Context, expressionNode *
 		if parentNode.Kind == MappingNode {
 			deleteFromMap(candidate.Parent, childPath)
 		} else if parentNode.Kind == SequenceNode {
-			deleteFromArray(candidate.Parent, childPath)
+			deleteFromArray(candidate.Parent, candidate, childPath)
 		} else {
 			return Context{}, fmt.Errorf("cannot delete nodes from parent of tag %v", parentNode.Tag)
 		}
@@ -70,15 +77,29 @@ func deleteFromMap(node *CandidateNode, childPath interface{}) {
 	node.Content = newContents
 }
 
-func deleteFromArray(node *CandidateNode, childPath interface{}) {
+func deleteFromArray(node *CandidateNode, child *CandidateNode, childPath interface{}) {
 	log.Debug("deleteFromArray")
 	contents := node.Content
 	newContents := make([]*CandidateNode, 0)
 
+	// delete the node that was selected; its recorded index can be out of date when the
+	// array has been sorted, reversed, sliced etc. Only fall back to the recorded index
+	// when the node is not an element of the array (e.g. it is a computed replacement).
+	childIsElement := false
+	for _, value := range contents {
+		if value == child {
+			childIsElement = true
+			break
+		}
+	}
+
 	for index := 0; index < len(contents); index = index + 1 {
 		value := contents[index]
 
-		shouldDelete := fmt.Sprintf("%v", index) == fmt.Sprintf("%v", childPath)
+		shouldDelete := value == child
+		if !childIsElement {
+			shouldDelete = fmt.Sprintf("%v", index) == fmt.Sprintf("%v", childPath)
+		}
 
 		if !shouldDelete {
 			value.Key.Value = fmt.Sprintf("%v", len(newContents))
